@@ -101,6 +101,8 @@ pub struct State {
     pub drops: Vec<String>,
     pub stuck_at: Option<usize>,
     pub stuck: bool,
+    /// an async hook that was called (its future created) and whose body has not started yet
+    pub entered: Option<String>,
 }
 
 thread_local! {
@@ -174,6 +176,7 @@ pub fn begin_op(line: &str) -> OpLine {
         s.drops.clear();
         s.stuck_at = stuck_at;
         s.stuck = false;
+        s.entered = None;
     });
     OpLine { toks }
 }
@@ -190,6 +193,9 @@ pub fn onat(v: Option<u32>) -> String {
 pub fn hook(kind: &str, name: &str, state: &str, ctx: u32, ctx_arg: Option<u32>, payload: Option<u32>, slots: String) -> Entry {
     let (e, forever) = ST.with(|s| {
         let mut s = s.borrow_mut();
+        if s.entered.as_deref() == Some(name) {
+            s.entered = None;
+        }
         let pos = s.pos;
         s.pos += 1;
         s.trace.push(format!("{kind}/{name}/{state}/{ctx}/{}/{}/{slots}", onat(ctx_arg), onat(payload)));
@@ -204,6 +210,18 @@ pub fn hook(kind: &str, name: &str, state: &str, ctx: u32, ctx_arg: Option<u32>,
         e.s = u32::MAX;
     }
     e
+}
+
+/// Called when an async hook is *called* (before its future is first polled). A hook called while the
+/// previous one has been called but has not even started is logged: hooks must run one after the other.
+pub fn enter(name: &str) {
+    ST.with(|s| {
+        let mut s = s.borrow_mut();
+        if let Some(prev) = s.entered.take() {
+            s.trace.push(format!("overlap/{prev}/{name}"));
+        }
+        s.entered = Some(name.to_string());
+    });
 }
 
 pub fn cond_answer(e: &Entry, name: &str) -> bool {
